@@ -36,7 +36,7 @@ static void load_file()
 	while ((c = std::fgetc(f)) != EOF) g_file.push_back((unsigned char)c);
 	std::fclose(f);
 }
-long vp_file_size(void) { load_file(); return long(g_file.size()); }
+long vp_file_size(void) { g_file_loaded = false; g_file.clear(); load_file(); return long(g_file.size()); }   // (re)reads the file
 int vp_file_byte(long i) { load_file(); if (i < 0 || i >= long(g_file.size())) { std::printf("VP_ASSERT_FAILED 9999\n"); return 0; } return g_file[std::size_t(i)]; }
 int harness_main(void);
 }
